@@ -124,6 +124,17 @@ type extraCollector struct {
 func (e *extraCollector) Describe(ch chan<- *prometheus.Desc) { e.c.Describe(ch) }
 func (e *extraCollector) Collect(ch chan<- prometheus.Metric) { e.c.Collect(ch) }
 
+// manyDescCollector describes n metrics; used to provoke a Register that is rejected half-way through Describe
+// (its first descriptor clashes with an already registered metric) while many descriptors are still to be sent.
+type manyDescCollector struct{ descs []*prometheus.Desc }
+
+func (m *manyDescCollector) Describe(ch chan<- *prometheus.Desc) {
+	for _, d := range m.descs {
+		ch <- d
+	}
+}
+func (m *manyDescCollector) Collect(ch chan<- prometheus.Metric) {}
+
 func runChild(c *cli.Ctx) error {
 	r := emit.NewRng(c.Seed)
 	w := emit.NewWriter(c.Out, "C10", "registry-histories")
@@ -144,7 +155,78 @@ func runChild(c *cli.Ctx) error {
 		sv2 := prometheus.NewSummaryVec(prometheus.SummaryOpts{Name: "sv2"}, []string{"a"})
 		cnt := prometheus.NewCounter(prometheus.CounterOpts{Name: "cnt"})
 		gg := prometheus.NewGauge(prometheus.GaugeOpts{Name: "gg"})
-		reg.MustRegister(cv, gv, hv, sv, sv2, cnt, gg)
+		// every observation of these two is exactly 1, so every scrape must show sum == count (and for the
+		// histogram: +Inf cumulative == count) no matter how it interleaves with observers
+		oneS := prometheus.NewSummary(prometheus.SummaryOpts{Name: "one_s"})
+		oneH := prometheus.NewHistogram(prometheus.HistogramOpts{Name: "one_h", Buckets: []float64{0.5, 2}})
+		reg.MustRegister(cv, gv, hv, sv, sv2, cnt, gg, oneS, oneH)
+		var snapshotViolations int64
+		// --- phase 0: creation races on fresh tuples (all goroutines released by a barrier look up the SAME new
+		// label set through every access path), and registrations rejected half-way through a long Describe
+		raceViolations := 0
+		for round := 0; round < 60; round++ {
+			lbl := fmt.Sprintf("r%d", round)
+			var wgR sync.WaitGroup
+			gate := make(chan struct{})
+			nr := 8
+			for g := 0; g < nr; g++ {
+				g := g
+				wgR.Add(1)
+				go func() {
+					defer wgR.Done()
+					defer func() {
+						if e := recover(); e != nil {
+							atomic.AddInt64(&panics, 1)
+							panicMsg.Store(fmt.Sprint(e))
+						}
+					}()
+					<-gate
+					switch g % 4 {
+					case 0:
+						cv.With(prometheus.Labels{"a": lbl, "b": "x"}).Inc()
+					case 1:
+						cv.WithLabelValues(lbl, "x").Inc()
+					case 2:
+						if cur, err := cv.CurryWith(prometheus.Labels{"b": "x"}); err == nil {
+							cur.With(prometheus.Labels{"a": lbl}).Inc()
+						}
+					default:
+						if m, err := cv.GetMetricWith(prometheus.Labels{"a": lbl, "b": "x"}); err == nil {
+							m.Inc()
+						}
+					}
+					hv.With(prometheus.Labels{"a": lbl}).Observe(1)
+					sv2.With(prometheus.Labels{"a": lbl}).Observe(1)
+					// a registration that must be rejected (first descriptor clashes with "cnt") while 40 more are pending
+					descs := []*prometheus.Desc{prometheus.NewDesc("cnt", "different help", nil, nil)}
+					for k := 0; k < 40; k++ {
+						descs = append(descs, prometheus.NewDesc(fmt.Sprintf("big_%d_%d_%d", round, g, k), "h", nil, nil))
+					}
+					if err := reg.Register(&manyDescCollector{descs: descs}); err == nil {
+						atomic.AddInt64(&panics, 1)
+						panicMsg.Store("conflicting collector was accepted")
+					}
+				}()
+			}
+			close(gate)
+			wgR.Wait()
+			atomic.AddInt64(&totalOps, int64(nr*4))
+			// exactly one live child per tuple and no lost update: the counter child must hold all nr increments
+			if v := testutil.ToFloat64(cv.WithLabelValues(lbl, "x")); v != float64(nr) {
+				raceViolations++
+			}
+			if mfs, err := reg.Gather(); err != nil || len(mfs) == 0 {
+				raceViolations++
+			}
+		}
+		defer func() {}()
+		if raceViolations > 0 {
+			atomic.AddInt64(&panics, 1)
+			panicMsg.Store(fmt.Sprintf("%d creation-race rounds lost an update or made Gather fail (duplicate children)", raceViolations))
+		}
+		cv.Reset()
+		hv.Reset()
+		sv2.Reset()
 		nExtra := 4
 		extras := make([]*extraCollector, nExtra)
 		for i := range extras {
@@ -176,7 +258,22 @@ func runChild(c *cli.Ctx) error {
 				for i := 0; i < nops; i++ {
 					atomic.AddInt64(&totalOps, 1)
 					a, b := vals[rr.Intn(len(vals))], vals[rr.Intn(len(vals))]
-					switch rr.Intn(24) {
+					switch rr.Intn(27) {
+					case 24, 25:
+						oneS.Observe(1)
+						oneH.Observe(1)
+					case 26:
+						if mfs, err := reg.Gather(); err == nil {
+							for _, mf := range mfs {
+								if mf.GetName() == "one_s" {
+									for _, m := range mf.Metric {
+										if m.Summary.GetSampleSum() != float64(m.Summary.GetSampleCount()) {
+											atomic.AddInt64(&snapshotViolations, 1)
+										}
+									}
+								}
+							}
+						}
 					case 0:
 						cv.WithLabelValues(a, b).Inc()
 					case 1:
@@ -210,6 +307,8 @@ func runChild(c *cli.Ctx) error {
 					case 14:
 						cnt.Inc()
 						gg.Dec()
+						oneS.Observe(1)
+						oneH.Observe(1)
 					case 15:
 						cnt.(prometheus.ExemplarAdder).AddWithExemplar(1, prometheus.Labels{"trace": "u"})
 					case 16:
@@ -237,6 +336,22 @@ func runChild(c *cli.Ctx) error {
 							ev.errs = 1
 						}
 						for _, mf := range mfs {
+							switch mf.GetName() {
+							case "one_s":
+								for _, m := range mf.Metric {
+									if m.Summary.GetSampleSum() != float64(m.Summary.GetSampleCount()) {
+										atomic.AddInt64(&snapshotViolations, 1)
+									}
+								}
+							case "one_h":
+								for _, m := range mf.Metric {
+									hh := m.Histogram
+									if hh.GetSampleSum() != float64(hh.GetSampleCount()) || len(hh.Bucket) != 2 ||
+										hh.Bucket[0].GetCumulativeCount() != 0 || hh.Bucket[1].GetCumulativeCount() != hh.GetSampleCount() {
+										atomic.AddInt64(&snapshotViolations, 1)
+									}
+								}
+							}
 							var k int
 							if n, _ := fmt.Sscanf(mf.GetName(), "extra_%d", &k); n == 1 {
 								ev.names = append(ev.names, k)
@@ -284,6 +399,10 @@ func runChild(c *cli.Ctx) error {
 		}
 		if leaked {
 			leaks++
+		}
+		if snapshotViolations > 0 {
+			atomic.AddInt64(&panics, 1)
+			panicMsg.Store(fmt.Sprintf("%d scrapes of an all-ones summary/histogram showed sum != count (inconsistent snapshot)", snapshotViolations))
 		}
 		// emit the registry history of this program
 		es := make([]string, len(events))
